@@ -163,8 +163,9 @@ IND_KEYS = {}
 
 
 def ind(key):
-    """name of the 0/1 indicator symbol of a branch fact"""
-    return "[" + ":".join(str(x) for x in key) + "]"
+    """name of the 0/1 indicator symbol of a branch fact (a fact inherited from a caller is marked with a leading ^ on its place:
+    it names the same symbol)"""
+    return "[" + ":".join((str(x)[1:] if i == 1 and isinstance(x, str) and x.startswith("^") else str(x)) for i, x in enumerate(key)) + "]"
 
 
 def subst_path(e, path):
@@ -177,9 +178,9 @@ def subst_path(e, path):
             indname, _, rest = sname.partition("]*")
             indname = indname + "]"
             val = None
-            for key, truth in path.items():
-                if ind(key) == indname:
-                    val = truth
+            vals = {truth for key, truth in path.items() if ind(key) == indname}
+            if len(vals) == 1:       # a callee's own fact about an equally named place must not decide a caller's symbol (and vice versa)
+                val = vals.pop()
             if val is None:
                 out = out.add(Lin(0, {sname: coef}))
             elif val:
@@ -1538,6 +1539,11 @@ class Analysis:
         cs.len = st.len  # object ids are global strings: effects on caller objects are shared
         cs.misc = st.misc
         cs.path = {k: v for k, v in st.path.items() if k[0] == "p"}
+        # discriminant facts of the caller's path stay true while the callee runs: lengths computed in the caller may mention their
+        # indicator symbols (`if mode == Client { n } else { 0 }`), and a helper called on that branch consumes accordingly
+        for k, v in st.path.items():
+            if k[0] == "d" and isinstance(k[1], str):
+                cs.path[("d", k[1] if k[1].startswith("^") else "^" + k[1]) + tuple(k[2:])] = v
         fn = short(body.defp)
         for i, a in enumerate(t["args"]):
             pl = i + 1
